@@ -10,6 +10,7 @@ import HappyProofs.C11.LeaderInit
 import HappyProofs.C11.ProgJudgeOk
 import HappyProofs.C11.ProgConvFair
 import HappyProofs.C11.ProgFifoRun
+import HappyProofs.C11.ProgFifoConv
 /-! C11 — property theorems: statements about the `Spec` predicates on the frames of model runs.
 
 General theorems live next to their invariants (quantified over the repair flags they need):
@@ -295,6 +296,12 @@ theorem fifo_example :
     fifoRun Variant.repaired [] (run Variant.repaired (init 3) stablePre) (.submit 0 7 cmdA :: stableTail) = true
     ∧ fifoRun Variant.repaired [] (run Variant.repaired (init 3) stablePre)
         [.submit 0 7 cmdA, .heartbeat 0, .deliver 7, .deliver 9, .deliver 5] = false := by decide
+
+/-- non-vacuity of `stable_leader_commits_conv_fifo`: the back-off example is FIFO on every link and nothing in flight
+    to node 2 reaches beyond the leader's log -/
+theorem fifo_conv_example :
+    fifoRun Variant.repaired [] (run Variant.repaired (init 3) backoffPre) (.submit 1 9 cmdB :: backoffTail) = true
+    ∧ aeBounded (run Variant.repaired (init 3) backoffPre) 1 2 2 = true := by decide
 
 /-! ### the judge's bounded-progress clause on the model's own transcript -/
 
